@@ -24,8 +24,18 @@ pub fn with_mock<T>(words: &[u64], f: impl FnOnce(&mut MockRand) -> T) -> Option
 			let rem = remaining(&mut r);
 			Some((v, words.len() - rem))
 		}
-		Err(_) => None,
+		Err(_) => {
+			// a panic with scripted words still unread is not the mock running dry: reported as ` wleft=<n>` after `panic`
+			let rem = remaining(&mut r);
+			WLEFT.with(|w| w.set(rem));
+			None
+		}
 	}
+}
+
+thread_local! {
+	/// words left unread when the last `with_mock` closure panicked (0: the mock ran dry, or no panic)
+	pub static WLEFT: std::cell::Cell<usize> = std::cell::Cell::new(0);
 }
 
 
